@@ -218,3 +218,179 @@ fn c13_canary() {
     let s = unsafe { std::str::from_utf8_unchecked(&buf[..2]) };
     assert!(Square::from_str(s).is_ok());
 }
+
+// ------------------------------------------------------------------------------------------ SAN (C12), callee-modular, bounded
+// from_san fuses a str scanner with a filter over the legal moves.  The obligation replaces its callees by their
+// contracts: MoveGen::new_legal -> SOME freshly started generator (<= 3 slots of <= 2,1,1 destinations) standing for
+// the legal moves; Board::piece_on -> an arbitrary but fixed square -> piece table; Board::side_to_move -> an arbitrary
+// colour.  The text is an arbitrary ASCII string of bounded length.  Oracle: the documented grammar.
+
+pub(crate) static mut SAN_TABLE: [u8; 64] = [6; 64];
+pub(crate) static mut SAN_STM: bool = false;
+fn san_piece_on(_b: &Board, sq: Square) -> Option<Piece> {
+    let v = unsafe { SAN_TABLE[sq.to_index()] } & 7;
+    if v >= 6 {
+        None
+    } else {
+        Some(piece_of(v as usize))
+    }
+}
+fn san_stm(_b: &Board) -> crate::color::Color {
+    if unsafe { SAN_STM } {
+        crate::color::Color::Black
+    } else {
+        crate::color::Color::White
+    }
+}
+
+/// does `t` spell the move (src,dst,promo) by the documented grammar?
+/// [piece letter] [source file] [source rank] ['x' iff capture] dest-file dest-rank [promotion letter] ['+'|'#'] [" e.p." only for en passant]
+fn san_spells(t: &[u8], src: u8, dst: u8, promo: Option<Piece>, piece: Piece, capture: bool, ep: bool) -> bool {
+    let letter: Option<u8> = match piece {
+        Piece::Pawn => None,
+        Piece::Knight => Some(b'N'),
+        Piece::Bishop => Some(b'B'),
+        Piece::Rook => Some(b'R'),
+        Piece::Queen => Some(b'Q'),
+        Piece::King => Some(b'K'),
+    };
+    // four disambiguation variants: none, file, rank, file+rank
+    let mut v = 0;
+    while v < 4 {
+        let mut i = 0usize;
+        let mut ok = true;
+        if let Some(l) = letter {
+            if i < t.len() && t[i] == l {
+                i += 1;
+            } else {
+                ok = false;
+            }
+        }
+        if ok && v & 1 != 0 {
+            if i < t.len() && t[i] == b'a' + (src & 7) {
+                i += 1;
+            } else {
+                ok = false;
+            }
+        }
+        if ok && v & 2 != 0 {
+            if i < t.len() && t[i] == b'1' + (src >> 3) {
+                i += 1;
+            } else {
+                ok = false;
+            }
+        }
+        if ok && capture {
+            if i < t.len() && t[i] == b'x' {
+                i += 1;
+            } else {
+                ok = false;
+            }
+        }
+        if ok {
+            if i + 1 < t.len() && t[i] == b'a' + (dst & 7) && t[i + 1] == b'1' + (dst >> 3) {
+                i += 2;
+            } else {
+                ok = false;
+            }
+        }
+        if ok {
+            if let Some(p) = promo {
+                let pl = match p {
+                    Piece::Knight => b'N',
+                    Piece::Bishop => b'B',
+                    Piece::Rook => b'R',
+                    _ => b'Q',
+                };
+                if i < t.len() && t[i] == pl {
+                    i += 1;
+                } else {
+                    ok = false;
+                }
+            }
+        }
+        if ok && i < t.len() && (t[i] == b'+' || t[i] == b'#') {
+            i += 1;
+        }
+        if ok && ep && i + 5 == t.len() && t[i] == b' ' && t[i + 1] == b'e' && t[i + 2] == b'.' && t[i + 3] == b'p' && t[i + 4] == b'.' {
+            i += 5;
+        }
+        if ok && i == t.len() {
+            return true;
+        }
+        v += 1;
+    }
+    false
+}
+
+fn san_check(len_max: usize) {
+    let b = crate::board::k_board::any_raw_board();
+    let table: [u8; 64] = kani::any();
+    let mut i = 0;
+    unsafe {
+        SAN_TABLE = table;
+        SAN_STM = kani::any();
+    }
+    let buf: [u8; 8] = kani::any();
+    let len: usize = kani::any();
+    kani::assume(len <= len_max && len_max <= 8);
+    i = 0;
+    while i < 8 {
+        kani::assume(buf[i] < 128);
+        i += 1;
+    }
+    // castling texts are covered by a separate obligation
+    kani::assume(!(len >= 3 && buf[0] == b'O'));
+    let s = unsafe { std::str::from_utf8_unchecked(&buf[..len]) };
+    let r = ChessMove::from_san(&b, s);
+    let snap = crate::movegen::k_movegen::last_gen_snapshot();
+    // the legal moves M of the stand-in generator (<= 2,1,1 destinations per slot), and how many of them the text spells
+    let mut matches = 0u32;
+    let mut hit: Option<ChessMove> = None;
+    let mut k = 0;
+    while k < 3 {
+        if k < snap.1 {
+            let (sq, bb, promo_slot) = snap.0[k];
+            let mut rest = bb;
+            let mut n = 0;
+            while n < 2 {
+                if rest != 0 {
+                    let d = rest.trailing_zeros() as u8;
+                    rest &= rest - 1;
+                    if let Some(piece) = san_piece_on(&b, Square::new(sq)) {
+                        let occupied = table[d as usize] & 7 < 6;
+                        let ep = piece == Piece::Pawn && (sq & 7) != (d & 7) && !occupied;
+                        let capture = occupied || ep;
+                        let mut j = 0;
+                        while j < 4 {
+                            let promo = if promo_slot { Some(PROMO[j]) } else { None };
+                            if (promo_slot || j == 0) && san_spells(&buf[..len], sq, d, promo, piece, capture, ep) {
+                                matches += 1;
+                                hit = Some(ChessMove::new(Square::new(sq), Square::new(d), promo));
+                            }
+                            j += 1;
+                        }
+                    }
+                }
+                n += 1;
+            }
+        }
+        k += 1;
+    }
+    match r {
+        Ok(m) => assert!(matches == 1 && hit == Some(m)),
+        Err(_) => assert!(matches != 1),
+    }
+    kani::cover!(matches == 1);
+}
+const PROMO: [Piece; 4] = [Piece::Queen, Piece::Knight, Piece::Rook, Piece::Bishop];
+
+// (not registered: measured out of reach, see DESIGN.md §0.2)  id=O12.1 props=C12 kind=bounded bound="every ASCII text of length 0..=5 (not starting with 'O'); generator of at most 3 slots with at most 2,1,1 destinations standing for the legal moves; arbitrary piece table and side" weight=medium fn="ChessMove::from_san" desc="callee-modular: Ok(m) exactly when the text spells exactly one of the legal moves by the documented grammar (piece letter, optional correct source file/rank, 'x' iff capture incl. en passant, destination, promotion letter, optional +/#, optional ' e.p.' for en passant) and m is that move; Err when it spells none or more than one; never a panic"
+#[kani::proof]
+#[kani::unwind(20)]
+#[kani::stub(crate::board::Board::piece_on, san_piece_on)]
+#[kani::stub(crate::board::Board::side_to_move, san_stm)]
+#[kani::stub(crate::movegen::MoveGen::new_legal, crate::board::k_board::any_small_fresh_gen)]
+fn c12_from_san_5() {
+    san_check(4);
+}
